@@ -231,7 +231,7 @@ theorem C12_op_charge_spin (twoS : Nat) (n : Nat) :
     chargeDiff (.spin twoS .dipole) n n = [0, 0] ∧
     chargeDiff (.spin twoS .none) (n + 1) n = [] := by
   simp only [chargeDiff, siteCharge, siteRawCharge, siteMod, makeValid, List.zipWith_cons_cons, List.zipWith_nil_right,
-    List.zipWith_nil_left, Nat.le_refl, if_true, List.cons.injEq, and_true]
+    Nat.le_refl, if_true, List.cons.injEq, and_true]
   simp only [show ¬ (2 ≤ 1) by decide, if_false]
   push_cast
   repeat' constructor
@@ -277,7 +277,7 @@ theorem C12_op_charge_boson (nmax : Nat) (f : Rat) (n : Nat) :
     chargeDiff (.boson nmax .dipole f) n (n + 1) = [-1, 0] ∧ chargeDiff (.boson nmax .dipole f) (n + 1) n = [1, 0] ∧
     chargeDiff (.boson nmax .dipole f) n n = [0, 0] := by
   simp only [chargeDiff, siteCharge, siteRawCharge, siteMod, makeValid, List.zipWith_cons_cons, List.zipWith_nil_right,
-    List.zipWith_nil_left, Nat.le_refl, if_true, List.cons.injEq, and_true]
+    Nat.le_refl, if_true, List.cons.injEq, and_true]
   simp only [show ¬ (2 ≤ 1) by decide, if_false]
   push_cast
   repeat' constructor
